@@ -25,6 +25,10 @@ pub struct SubSpec {
     pub host: String,
     pub routes: Vec<String>,
     pub ws_routes: Vec<String>,
+    /// after all routes are registered, `with_cors_config` is called for these routes (index modulo the number of
+    /// routes): configuring a route must not change which route is chosen
+    #[serde(default)]
+    pub cors_on: Vec<u8>,
 }
 
 #[derive(Clone, Debug, Serialize, Deserialize)]
@@ -80,6 +84,11 @@ fn build_sub(spec: &SubSpec, hi: usize) -> SubApp<()> {
             let _ = stream.write_all(id.as_bytes());
             let _ = stream.shutdown();
         });
+    }
+    for k in &spec.cors_on {
+        if !spec.routes.is_empty() {
+            s = s.with_cors_config(&spec.routes[*k as usize % spec.routes.len()], humphrey::http::cors::Cors::wildcard());
+        }
     }
     s
 }
@@ -328,7 +337,8 @@ fn arb_host_pattern() -> impl Strategy<Value = String> {
 }
 
 fn arb_sub(host: impl Strategy<Value = String>) -> impl Strategy<Value = SubSpec> {
-    (host, proptest::collection::vec(arb_pattern(), 0..7), proptest::collection::vec(arb_pattern(), 0..4)).prop_map(|(host, routes, ws_routes)| SubSpec { host, routes, ws_routes })
+    (host, proptest::collection::vec(arb_pattern(), 0..7), proptest::collection::vec(arb_pattern(), 0..4), prop_oneof![2 => Just(Vec::new()), 1 => proptest::collection::vec(any::<u8>(), 1..3)])
+        .prop_map(|(host, routes, ws_routes, cors_on)| SubSpec { host, routes, ws_routes, cors_on })
 }
 
 pub fn arb_case() -> impl Strategy<Value = Case> {
